@@ -534,3 +534,9 @@ Proof.
   apply Z.bits_inj'. intros n Hn. rewrite !Z.land_spec, Z.lnot_spec, Z.bits_0 by exact Hn.
   destruct (Z.testbit v1 n), (Z.testbit f n); reflexivity.
 Qed.
+
+(* every step from every reachable state is a legal atomic update of the current value *)
+Theorem at_step_atomic_reachable w progs sched i :
+  let s := at_final (at_init w progs) sched in
+  at_apply_ev (at_word s) (snd (at_step s i)) = Some (at_word (fst (at_step s i))).
+Proof. cbn zeta. apply at_step_abs. apply at_run_inv. apply at_init_inv. Qed.
